@@ -146,8 +146,9 @@ struct Task
 	std::function<void()> fn;
 	std::string failure;              // uncaught exception text
 	bool aborted;
+	uint64_t spin;                    // clock reads since the task last gave the baton back (busy-wait guard)
 	Task() : id(0), party(-1), state(NEW), wake_ms(-1), skew_s(0), weight(8), go(false),
-		aborted(false) {}
+		aborted(false), spin(0) {}
 };
 
 struct Event
